@@ -97,19 +97,64 @@ Definition live_ref (s : cst) (r : ref) : Prop :=
 Lemma owned_live_ref : forall s tid e, CInv s -> In (tid, e) (cown s) -> live_ref s (eref e).
 Proof. intros s tid e H Hin id Er. apply (owned_live k terms nl s (tid, e) id H Hin Er). Qed.
 
+(** the premises of Section Agree for the snapshots before and after one action *)
+Lemma step_agree_nodes : forall s a s' r, CInv s -> step s a = Some (s', r) ->
+  forall id, live_ref s (RN id) ->
+  match find_node (to_snap s) id with
+  | None => True
+  | Some n1 =>
+    exists n2, find_node (to_snap s') id = Some n2 /\ nlevel n2 = nlevel n1 /\
+               nchildren n2 = nchildren n1 /\
+               forall e, In e (nchildren n1) -> live_ref s (eref e)
+  end.
+Proof.
+  intros s a s' r H Hs id Hp. rewrite !find_node_to_snap.
+  destruct (Hp id eq_refl) as [nd [F Hnz]]. rewrite F. simpl.
+  destruct (step_frame k terms nl s a s' r id nd H Hs F Hnz) as [nd' [F' [L C]]].
+  exists (to_node nd'). rewrite F'. simpl. repeat split; auto.
+  intros x Hx j Er. destruct (child_live k terms nl s id nd x j H F Hx Er) as [ndc [Fc [Hc _]]]. eauto.
+Qed.
+
+Lemma step_agree_present : forall s id, live_ref s (RN id) -> find_node (to_snap s) id <> None.
+Proof.
+  intros s id Hp. rewrite find_node_to_snap. destruct (Hp id eq_refl) as [nd [F _]].
+  rewrite F. discriminate.
+Qed.
+
+Lemma nlevels_step : forall s s', nlevels (to_snap s) = nlevels (to_snap s').
+Proof. intros. rewrite !nlevels_to_snap. reflexivity. Qed.
+
 (** 6'. one action of anybody does not change the meaning of any edge in use *)
 Theorem step_sem_preserved : forall s a s' r e c, CInv s -> step s a = Some (s', r) ->
   live_ref s (eref e) -> sem_edge (to_snap s') e c = sem_edge (to_snap s) e c.
 Proof.
   intros s a s' r e c H Hs Hl. symmetry.
-  apply (sem_edge_agree (to_snap s) (to_snap s') (live_ref s)); try reflexivity.
-  - intros id Hp. rewrite !find_node_to_snap.
-    destruct (Hp id eq_refl) as [nd [F Hnz]]. rewrite F. simpl.
-    destruct (step_frame k terms nl s a s' r id nd H Hs F Hnz) as [nd' [F' [L C]]].
-    exists (to_node nd'). rewrite F'. simpl. repeat split; auto.
-    intros x Hx j Er. destruct (child_live k terms nl s id nd x j H F Hx Er) as [ndc [Fc [Hc _]]]. eauto.
-  - intros id Hp. rewrite find_node_to_snap. destruct (Hp id eq_refl) as [nd [F _]]. rewrite F. discriminate.
-  - exact Hl.
+  apply (sem_edge_agree (to_snap s) (to_snap s') (live_ref s) eq_refl eq_refl (nlevels_step s s')
+           (step_agree_nodes s a s' r H Hs) (step_agree_present s)). exact Hl.
+Qed.
+
+Lemma step_semk_preserved : forall s a s' r f x c, CInv s -> step s a = Some (s', r) ->
+  live_ref s x -> semk (to_snap s') f x c = semk (to_snap s) f x c.
+Proof.
+  intros s a s' r f x c H Hs Hl. symmetry.
+  apply (semk_agree (to_snap s) (to_snap s') (live_ref s) eq_refl
+           (step_agree_nodes s a s' r H Hs) (step_agree_present s)). exact Hl.
+Qed.
+
+Lemma step_semc_preserved : forall s a s' r f e c, CInv s -> step s a = Some (s', r) ->
+  live_ref s (eref e) -> semc (to_snap s') f e c = semc (to_snap s) f e c.
+Proof.
+  intros s a s' r f e c H Hs Hl. symmetry.
+  apply (semc_agree (to_snap s) (to_snap s') (live_ref s)
+           (step_agree_nodes s a s' r H Hs) (step_agree_present s)). exact Hl.
+Qed.
+
+Lemma step_semz_preserved : forall s a s' r f lvl x c, CInv s -> step s a = Some (s', r) ->
+  live_ref s x -> semz (to_snap s') f lvl x c = semz (to_snap s) f lvl x c.
+Proof.
+  intros s a s' r f lvl x c H Hs Hl. symmetry.
+  apply (semz_agree (to_snap s) (to_snap s') (live_ref s) eq_refl (nlevels_step s s')
+           (step_agree_nodes s a s' r H Hs) (step_agree_present s)). exact Hl.
 Qed.
 
 (** Corollary: while thread [tid] sits on the handle [e] (it performs no action), no
@@ -143,6 +188,112 @@ Proof.
   destruct (take_toks tid ch (cown s)) as [own1|] eqn:Ht; [|discriminate].
   apply (owned_live k terms nl s (tid, x) j H); [|exact Er].
   eapply take_toks_owned; eauto.
+Qed.
+
+(** ** what the handle returned by get_or_insert denotes
+
+    The returned edge denotes "the child selected by the choice at level [lvl]",
+    where the children are read in the state BEFORE the action: the result is a
+    function of the caller's arguments only, whether the node was found (created
+    earlier by any thread) or newly created, and whatever the other threads hold. *)
+
+Lemma goi_facts : forall s tid lvl ch fr s' id, CInv s ->
+  step s (AGoi tid lvl ch fr) = Some (s', Some id) ->
+  CInv s' /\
+  (exists nd, cfind (cn s') id = Some nd /\ cl nd = lvl /\ cch nd = ch) /\
+  (forall x, In x ch -> live_ref s (eref x)).
+Proof.
+  intros s tid lvl ch fr s' id H Hs.
+  split; [apply (step_inv k terms nl s _ s' (Some id) H Hs)|]. split.
+  - destruct (goi_result k terms nl s tid lvl ch fr s' (Some id) H Hs)
+      as [id' [nd [E [F [Hl [Hc _]]]]]]. inversion E; subst id'. eauto.
+  - intros x Hx j Er. simpl in Hs.
+    destruct (node_pre_b k terms nl (cn s) lvl ch) eqn:Hpre; [|discriminate].
+    destruct (take_toks tid ch (cown s)) as [own1|] eqn:Ht; [|discriminate].
+    apply (owned_live k terms nl s (tid, x) j H); [|exact Er].
+    eapply take_toks_owned; eauto.
+Qed.
+
+(** a child of a stored node of the (well-formed) snapshot: enough fuel one level down *)
+Lemma child_fuel : forall s id nd x, CInv s -> terms_unique_b terms = true ->
+  cfind (cn s) id = Some nd -> In x (cch nd) ->
+  ref_ok (to_snap s) (eref x) /\ nlevels (to_snap s) - rlevel (to_snap s) (eref x) < nl /\
+  S (cl nd) <= rlevel (to_snap s) (eref x).
+Proof.
+  intros s id nd x H Ht F Hx.
+  pose proof (conc_WF k terms nl s H Ht) as W.
+  assert (Fs : find_node (to_snap s) id = Some (to_node nd)) by (rewrite find_node_to_snap, F; reflexivity).
+  destruct (wf_child _ W id (to_node nd) x Fs Hx) as [Hok Hlt]. simpl in Hlt.
+  pose proof (rlevel_le _ W (eref x)) as Hle. rewrite nlevels_to_snap in *.
+  split; [exact Hok|]. split; lia.
+Qed.
+
+Theorem goi_sem_kary : forall s tid lvl ch fr s' id c, CInv s -> terms_unique_b terms = true ->
+  k <> KBcdd -> k <> KZbdd ->
+  step s (AGoi tid lvl ch fr) = Some (s', Some id) ->
+  sem_edge (to_snap s') (mkEdge (RN id) false) c =
+  match nth_error ch (c lvl) with
+  | Some x => sem_edge (to_snap s) x c
+  | None => None
+  end.
+Proof.
+  intros s tid lvl ch fr s' id c H Ht K1 K2 Hs.
+  destruct (goi_facts s tid lvl ch fr s' id H Hs) as [H' [[nd [F [Hl Hc]]] Hlive]].
+  assert (Hk : forall st e, sem_edge (to_snap st) e c = semk (to_snap st) (S nl) (eref e) c).
+  { intros st e. unfold sem_edge. rewrite nlevels_to_snap. simpl s_kind. destruct k; congruence. }
+  rewrite Hk. simpl eref. rewrite semk_S, find_node_to_snap, F. simpl. rewrite Hl, Hc.
+  destruct (nth_error ch (c lvl)) as [x|] eqn:Hx; [|reflexivity].
+  assert (Hin : In x ch) by (eapply nth_error_In; eauto).
+  destruct (child_fuel s' id nd x H' Ht F ltac:(rewrite Hc; exact Hin)) as [Hok [Hf _]].
+  rewrite Hk. rewrite (semk_fuel _ (conc_WF k terms nl s' H' Ht) nl (S nl) (eref x) c Hok Hf ltac:(lia)).
+  apply (step_semk_preserved s _ s' (Some id) _ _ c H Hs). apply Hlive. exact Hin.
+Qed.
+
+Theorem goi_sem_bcdd : forall s tid lvl ch fr s' id c, CInv s -> terms_unique_b terms = true ->
+  k = KBcdd ->
+  step s (AGoi tid lvl ch fr) = Some (s', Some id) ->
+  sem_edge (to_snap s') (mkEdge (RN id) false) c =
+  match nth_error ch (c lvl) with
+  | Some x => sem_edge (to_snap s) x c
+  | None => None
+  end.
+Proof.
+  intros s tid lvl ch fr s' id c H Ht K Hs.
+  destruct (goi_facts s tid lvl ch fr s' id H Hs) as [H' [[nd [F [Hl Hc]]] Hlive]].
+  assert (Hk : forall st e, sem_edge (to_snap st) e c =
+            option_map (fun b : bool => if b then 1%N else 0%N) (semc (to_snap st) (S nl) e c)).
+  { intros st e. unfold sem_edge. rewrite nlevels_to_snap. simpl s_kind. rewrite K. reflexivity. }
+  rewrite Hk. rewrite (semc_S (to_snap s') nl (mkEdge (RN id) false) c id eq_refl), find_node_to_snap, F. simpl. rewrite Hl, Hc.
+  destruct (nth_error ch (c lvl)) as [x|] eqn:Hx; [|reflexivity].
+  assert (Hin : In x ch) by (eapply nth_error_In; eauto).
+  destruct (child_fuel s' id nd x H' Ht F ltac:(rewrite Hc; exact Hin)) as [Hok [Hf _]].
+  rewrite Hk.
+  rewrite (semc_fuel _ (conc_WF k terms nl s' H' Ht) nl (S nl) x c Hok Hf ltac:(lia)).
+  rewrite (step_semc_preserved s _ s' (Some id) _ x c H Hs (Hlive x Hin)).
+  destruct (semc (to_snap s) (S nl) x c) as [[|]|]; reflexivity.
+Qed.
+
+(** ZBDD: all skipped levels above the node must be "variable false"; below the node the
+    child is read from the level after [lvl] *)
+Theorem goi_sem_zbdd : forall s tid lvl ch fr s' id c, CInv s -> terms_unique_b terms = true ->
+  step s (AGoi tid lvl ch fr) = Some (s', Some id) ->
+  semz (to_snap s') (S nl) 0 (RN id) c =
+  if all_lo c 0 lvl then
+    match nth_error ch (c lvl) with
+    | Some x => semz (to_snap s) (S nl) (S lvl) (eref x) c
+    | None => None
+    end
+  else Some false.
+Proof.
+  intros s tid lvl ch fr s' id c H Ht Hs.
+  destruct (goi_facts s tid lvl ch fr s' id H Hs) as [H' [[nd [F [Hl Hc]]] Hlive]].
+  rewrite semz_S, find_node_to_snap, F. simpl. rewrite Hl, Hc, Nat.sub_0_r.
+  destruct (all_lo c 0 lvl); [|reflexivity].
+  destruct (nth_error ch (c lvl)) as [x|] eqn:Hx; [|reflexivity].
+  assert (Hin : In x ch) by (eapply nth_error_In; eauto).
+  destruct (child_fuel s' id nd x H' Ht F ltac:(rewrite Hc; exact Hin)) as [Hok [Hf _]].
+  rewrite (semz_fuel _ (conc_WF k terms nl s' H' Ht) nl (S nl) (S lvl) (eref x) c Hok Hf ltac:(lia)).
+  apply (step_semz_preserved s _ s' (Some id) _ _ _ c H Hs). apply Hlive. exact Hin.
 Qed.
 
 End Sem.
